@@ -72,7 +72,7 @@ func syncReader(in *inst, r *scheduler.VerifHotReader, when string) error {
 		if err := renameInto(in, name, skeleton); err != nil {
 			return &harnessErr{"sync file: " + err.Error()}
 		}
-		wait := time.Duration(20<<uint(min(attempt, 8))) * time.Millisecond
+		wait := time.Duration(2<<uint(min(attempt, 10))) * time.Millisecond
 		if wait > 2*time.Second {
 			wait = 2 * time.Second
 		}
@@ -129,6 +129,12 @@ func hotReload(in *inst, how string) (err error) {
 			}
 		}
 	}()
+	// the watcher goroutine creates its inotify instance first and adds the directory right after
+	for t0 := time.Now(); inotifyFDs() <= fds; time.Sleep(50 * time.Microsecond) {
+		if time.Since(t0) > hotWait {
+			return &harnessErr{fmt.Sprintf("the watcher did not create an inotify instance within %s (limit reached -> polling fallback?)", hotWait)}
+		}
+	}
 	if serr := syncReader(in, r, "boot"); serr != nil {
 		return serr
 	}
